@@ -34,7 +34,7 @@ fn horizon_min(tier: Tier) -> u64 {
 }
 
 fn info(tier: Tier) -> CheckInfo {
-    CheckInfo {
+    let mut ci = CheckInfo {
         id: "C14",
         level: "model_checking",
         rule: format!(
@@ -46,7 +46,9 @@ fn info(tier: Tier) -> CheckInfo {
             if tier.is_quick() { "" } else { " and every pair of deviations over a reduced placement set" }
         ),
         assumptions: vec!["loss-free network, 10 ms latency".into(), "'about 20 minutes' is read as 21 minutes (15 min stale + one 5-minute round + polling slack)".into()],
-    }
+    };
+    ci.rule.push_str(" Added: at the end of every timeline Info and to_bootstrap() must equal the observer's state.");
+    ci
 }
 
 #[derive(Clone, Debug, PartialEq)]
